@@ -181,6 +181,22 @@ def lrint (f : Fmt) (w : Nat) (b : Nat) : Option Int :=
     let v := if f.sign b = 1 then -r else r
     if -(2 ^ (w - 1) : Int) ≤ v ∧ v < (2 ^ (w - 1) : Int) then some v else none
 
+/-- `sqrt` (IEC 60559 5.4.1: correctly rounded; C17 F.10.4.5): NaN ↦ NaN, ±0 ↦ itself, other negative values ↦ NaN
+    (invalid), +inf ↦ +inf, otherwise the exact root rounded to nearest even.  The value in units is
+    √(mag · 2^U); the integer root `s` of `mag · 2^U · 4^t` carries `t = mbits + 2` extra bits, the sticky bit says
+    whether it is exact (a root is never a tie: an inexact one lies strictly between two half-units). -/
+def sqrt (f : Fmt) (b : Nat) : Nat :=
+  if f.isNaN b then f.qnan
+  else if f.isZero b then b
+  else if f.sign b = 1 then f.qnan
+  else if f.isInf b then b
+  else
+    let t := f.mbits + 2
+    let M := f.mag b * 2 ^ f.U * 4 ^ t
+    let s := Nat.sqrt M
+    let sticky := if s * s = M then 0 else 1
+    f.roundUnits (2 * s + sticky) (-(t : Int) - 1)
+
 def copysign (f : Fmt) (x y : Nat) : Nat :=
   if f.isNaN x then f.qnan else f.withSign (f.sign y) (f.absBits x)
 def signbit (f : Fmt) (b : Nat) : Bool := f.sign b == 1
